@@ -77,7 +77,9 @@ func buildBlockStatements(closureContext *parser.ClosureContext) []core_domain.C
 			argumentsContext := pathExpression.GetChild(1).(*parser.PathElementContext).GetChild(0).(*parser.ArgumentsContext)
 			argListCtx := argumentsContext.GetChild(1).(*parser.EnhancedArgumentListContext)
 			for _, argElement := range argListCtx.AllEnhancedArgumentListElement() {
-				result = ConvertToJDep(argElement.GetText())
+				if text, ok := stringLiteralText(argElement); ok {
+					result = ConvertToJDep(text)
+				}
 			}
 		}
 
@@ -99,19 +101,26 @@ func buildBlockStatements(closureContext *parser.ClosureContext) []core_domain.C
 func BuildDependency(argumentListContext *parser.ArgumentListContext) *core_domain.CodeDependency {
 	var result *core_domain.CodeDependency = nil
 	for _, arg := range argumentListContext.AllArgumentListElement() {
-		if reflect.TypeOf(arg.(*parser.ArgumentListElementContext).GetChild(0)).String() == "*parser.ExpressionListElementContext" {
-			listElementContext := arg.(*parser.ArgumentListElementContext).GetChild(0).(*parser.ExpressionListElementContext)
-			literalPrmrAltContext := listElementContext.
-				GetChild(0).
-				GetChild(0).
-				GetChild(0).
-				GetChild(0).(*parser.LiteralPrmrAltContext)
-
-			resultStr := literalPrmrAltContext.Literal().GetChild(0).(*parser.StringLiteralContext).StringLiteral().GetText()
-			result = ConvertToJDep(resultStr)
+		if text, ok := stringLiteralText(arg); ok {
+			result = ConvertToJDep(text)
 		}
 	}
 	return result
+}
+
+// stringLiteralText returns the text of an argument that is nothing but a string literal;
+// project(':core'), fileTree(dir: 'libs'), group: 'g', name: 'a' and the like are not.
+func stringLiteralText(node antlr.Tree) (string, bool) {
+	for node != nil {
+		if literal, ok := node.(*parser.StringLiteralContext); ok {
+			return literal.GetText(), true
+		}
+		if node.GetChildCount() != 1 {
+			return "", false
+		}
+		node = node.GetChild(0)
+	}
+	return "", false
 }
 
 func ConvertToJDep(result string) *core_domain.CodeDependency {
